@@ -285,7 +285,7 @@ pub fn reach() -> i32 {
     let v = run("C16", "0.1");
     let f = &v["coverage"]["fault_kinds_fired"];
     let mut n16 = 0;
-    for k in crate::check16::FAULT_KINDS.iter().copied().chain(["truncation", "isut_without_isstd", "zero_types", "zero_chars", "isstd_count_mismatch", "isut_count_mismatch", "utoff_minimum", "leap_table_invalid", "footer_inconsistent_with_last_transition", "truncate_at_every_k", "byte_flip", "char_insert", "char_delete", "field_month_13", "field_week_0_or_6", "field_weekday_7", "field_julian_out_of_range", "field_hour_out_of_range", "trailing_text", "random_bytes", "read.eintr", "read.short_read", "public_route_on_faulted_file", "public_route_on_tz_string"]) {
+    for k in crate::check16::FAULT_KINDS.iter().copied().chain(["truncation", "isut_without_isstd", "zero_types", "zero_chars", "isstd_count_mismatch", "isut_count_mismatch", "utoff_minimum", "leap_table_invalid", "footer_inconsistent_with_last_transition", "truncate_at_every_k", "byte_flip", "char_insert", "char_delete", "field_month_13", "field_week_0_or_6", "field_weekday_7", "field_julian_out_of_range", "field_hour_out_of_range", "trailing_text", "field_letter_case", "field_non_ascii_digit", "field_inner_blank", "name_non_ascii", "random_bytes", "read.eintr", "read.short_read", "public_route_on_faulted_file", "public_route_on_tz_string"]) {
         n16 += 1;
         if f[k].as_u64().unwrap_or(0) == 0 {
             println!("C16: fault kind {} never fired", k);
